@@ -121,6 +121,20 @@ Definition retry_after_ns (r : http_resp) : Z :=
 
 Record wcfg := mkCfg { c_min : Z; c_max : Z; c_max_retries : Z; c_retry429 : bool }.
 
+(* NewAPI: defaultAPIOpts, then the options applied in the order given (only the options that decide about
+   retries are modelled; path, logger and http client do not influence the attempt loop) *)
+Inductive api_option := OBackoff (mn mx mr : Z) | ONoRetry429.
+Definition default_cfg : wcfg := mkCfg 1000000000 10000000000 10 true.
+Definition apply_option (c : wcfg) (o : api_option) : wcfg :=
+  match o with
+  | OBackoff mn mx mr => mkCfg mn mx mr (c_retry429 c)               (* WithAPIBackoff: o.backoff = cfg *)
+  | ONoRetry429 => mkCfg (c_min c) (c_max c) (c_max_retries c) false  (* WithAPINoRetryOnRateLimit *)
+  end.
+Definition apply_options (l : list api_option) : wcfg := fold_left apply_option l default_cfg.
+(* an option list in which all WithAPIBackoff options (if any) carry the same configuration *)
+Definition one_backoff (l : list api_option) : Prop :=
+  forall a b c a' b' c', In (OBackoff a b c) l -> In (OBackoff a' b' c') l -> (a, b, c) = (a', b', c').
+
 Inductive ekind := KTransport | KBody | KStatus (code : Z).
 Inductive aresult := AOk | ARetry (after : Z) (k : ekind) | ATerm (k : ekind).
 
